@@ -4,37 +4,33 @@ import ShroudVerif.Lemmas.LuaDispatch
 # C18  The generated Lua binding is call-equivalent to the wrapped library
 
 `gen k ovs` is the function body `Wrapl.wrap_function` writes for the overloads `ovs` of one Lua
-name (model of the code after the `fix:` commits 5605135 and a00c47c), `run selfOk body s` is
-what that body does on the Lua stack `s`, `expected selfOk k ovs s` is the property stated on
+name (model of the code after the `fix:` commits 5605135, a00c47c and d761e08), `run selfOk body s`
+is what that body does on the Lua stack `s`, `expected selfOk k ovs s` is the property stated on
 the declarations: the first call of `luaCalls` (declaration order; one per overload and per
 omitted-default prefix) whose parameter tags equal the tags of the arguments, with the stack
 values as arguments and that overload's result count; otherwise `luaL_error` and no call.
 
-* `dispatch_correct`: the full statement for every name that has at least two calls
-  (overloads and/or defaults) -- free functions, constructors and methods.
-* `single_call_matching` / `dispatch_correct_partial`: a name with exactly one call gets no test
-  at all in the emitted code, so there the statement holds for stacks of the declared shape only;
-  `single_call_unchecked` characterises what happens otherwise and
-  `single_call_full_statement_false` is the negation witness (open finding).
-* `old_method_dispatch_wrong`: the body written before 5605135 violates the statement for methods.
+* `dispatch_correct`: the full statement for every name -- free functions, constructors, methods,
+  destructors; one signature or many.  Only hypothesis: at most one signature takes no argument.
+* `single_call_*_before_fix`: the body written before d761e08 for a name with one signature tested
+  nothing (historical negation witnesses); `old_method_dispatch_wrong`: before 5605135 methods.
+* registration: `groups_*`, `lookupReg_*`: every gathered group is entered once and a Lua name
+  reaches its own C function exactly when names are distinct; objects: a constructor's value passes
+  the object test of its class only; any number of `__gc` runs the destructor once.
 
 Not modelled: which C++ overload g++ selects for the emitted call expression (observed by the
 emulator oracle; repaired for std::string/bool in d443a4b) and the Lua C API itself.
 -/
 namespace Shroud.LuaDispatch
 
-/-! ### the emitted body: which of the two shapes -/
+/-! ### the emitted body -/
 
-theorem gen_single (k : Kind) (ovs : List Overload) (c : Call) (h : luaCalls k ovs = [c]) :
-    gen k ovs = .single (emitOf k (Layout.fixed k) 0 c) := by
-  simp [gen, genWith, h]
+theorem gen_single_before_fix (k : Kind) (ovs : List Overload) (c : Call) (h : luaCalls k ovs = [c]) :
+    genSingleCase k ovs = .single (emitOf k (Layout.fixed k) 0 c) := by
+  simp [genSingleCase, genSpecial, h]
 
-theorem gen_switch (k : Kind) (ovs : List Overload) (h : (luaCalls k ovs).length ≠ 1) :
-    gen k ovs = .switch k.selfOffset (casesFor k (Layout.fixed k) (luaCalls k ovs) (maxargs ovs)) := by
-  unfold gen genWith
-  split
-  · rename_i c hc; simp [hc] at h
-  · rfl
+theorem gen_eq (k : Kind) (ovs : List Overload) :
+    gen k ovs = .switch k.selfOffset (casesFor k (Layout.fixed k) (luaCalls k ovs) (maxargs ovs)) := rfl
 
 /-! ### `luaCalls`: one call per overload and per omitted-default prefix -/
 
@@ -61,14 +57,14 @@ theorem luaCalls_nresults (k : Kind) (ovs : List Overload) (c : Call) (h : c ∈
 
 /-! ### the main theorem -/
 
-/-- **C18, names with overloads and/or default arguments.**  For every kind of wrapped function
-    (free function, constructor, method, destructor), every overload set whose `all_calls` has not
-    exactly one entry and at most one entry without arguments, every object test `selfOk` and
-    every Lua stack, the emitted body does exactly what the property demands. -/
+/-- **C18.**  For every kind of wrapped function (free function, constructor, method, destructor),
+    every overload set (one signature or many) with at most one signature without arguments, every
+    object test `selfOk` and every Lua stack, the emitted body does exactly what the property
+    demands. -/
 theorem dispatch_correct (selfOk : Val → Bool) (k : Kind) (ovs : List Overload) (s : Stack)
-    (hm : (luaCalls k ovs).length ≠ 1) (hz : (byCount (luaCalls k ovs) 0).length ≤ 1) :
+    (hz : (byCount (luaCalls k ovs) 0).length ≤ 1) :
     run selfOk (gen k ovs) s = expected selfOk k ovs s := by
-  rw [gen_switch k ovs hm]
+  rw [gen_eq k ovs]
   have hb : ∀ c ∈ luaCalls k ovs, c.nargs ≤ maxargs ovs := fun c hc => nargs_callsFrom k ovs 0 c hc
   by_cases hk : k.selfOffset = 0
   · -- free function / constructor: the whole stack is the argument list
@@ -128,71 +124,48 @@ theorem zero_arg_calls_both_run :
     run (fun _ => true) (gen .free [⟨[], false⟩, ⟨[⟨.number, true⟩], false⟩]) []
       = .ret [⟨0, 0, none, []⟩, ⟨1, 1, none, []⟩] 0 := by decide
 
-/-! ### names with exactly one call: no test is written -/
+/-! ### names with exactly one call, before d761e08: no test was written -/
 
-/-- whatever is on the stack, the only call is made, with the values found at the argument
-    indices (absent values above the top); a method still checks its object -/
-theorem single_call_unchecked (selfOk : Val → Bool) (k : Kind) (ovs : List Overload) (c : Call)
+/-- (historical) whatever was on the stack, the only call was made, with the values found at the
+    argument indices (absent values above the top); a method still checked its object -/
+theorem single_call_unchecked_before_fix (selfOk : Val → Bool) (k : Kind) (ovs : List Overload) (c : Call)
     (h : luaCalls k ovs = [c]) (s : Stack) :
-    run selfOk (gen k ovs) s =
+    run selfOk (genSingleCase k ovs) s =
       match selfIdxOf k with
       | none => .ret [⟨0, c.ov, none, (idxFrom (1 + k.selfOffset) c.nargs).map s.at⟩] c.nresults
       | some i =>
         if selfOk (s.at i) then
           .ret [⟨0, c.ov, some (s.at i), (idxFrom (1 + k.selfOffset) c.nargs).map s.at⟩] c.nresults
         else .error [] := by
-  rw [gen_single k ovs c h]
+  rw [gen_single_before_fix k ovs c h]
   simp only [run, runOne, runEmit, emitOf, Layout.fixed]
   cases selfIdxOf k with
   | none => rfl
   | some i => by_cases hs : selfOk (s.at i) <;> simp [hs]
 
-/-- on a stack of the declared shape the single call is the demanded one -/
-theorem single_call_matching (selfOk : Val → Bool) (k : Kind) (ovs : List Overload) (c : Call)
-    (h : luaCalls k ovs = [c]) (s : Stack)
-    (hs : (s.drop k.selfOffset).map (·.ty) = c.types) (hlen : k.selfOffset ≤ s.length) :
-    run selfOk (gen k ovs) s = expected selfOk k ovs s := by
-  rw [gen_single k ovs c h]
-  by_cases hk : k.selfOffset = 0
-  · rw [hk, List.drop_zero] at hs
-    have hn : c.nargs = s.length := by simp [Call.nargs, ← hs]
-    simp only [run, runOne_emitOf_noself selfOk k hk 0 c s hn, expected, hk, if_true, expectedArgs, h,
-      firstMatch, hs]
-  · have hk1 : k.selfOffset = 1 := by cases k <;> simp [Kind.selfOffset] at hk ⊢
-    cases s with
-    | nil => simp [hk1] at hlen
-    | cons self args =>
-      rw [hk1] at hs
-      simp only [List.drop_succ_cons, List.drop_zero] at hs
-      have hn : c.nargs = args.length := by simp [Call.nargs, ← hs]
-      simp only [run, runOne_emitOf_self selfOk k hk1 0 c self args hn, expected, hk1, expectedArgs, h,
-        firstMatch, hs]
-      simp
-
 example : luaCalls .method [⟨[⟨.number, false⟩], true⟩] = [⟨0, [.number], 1⟩] := by decide
 
-/-- **C18 as far as it holds on the current code** (`_partial`: for a name with a single call the
-    stack must have the declared shape; what is missing is the error for every other stack). -/
-theorem dispatch_correct_partial (selfOk : Val → Bool) (k : Kind) (ovs : List Overload) (s : Stack)
-    (hz : (byCount (luaCalls k ovs) 0).length ≤ 1)
-    (h : (luaCalls k ovs).length ≠ 1 ∨
-         ∃ c, luaCalls k ovs = [c] ∧ (s.drop k.selfOffset).map (·.ty) = c.types ∧ k.selfOffset ≤ s.length) :
-    run selfOk (gen k ovs) s = expected selfOk k ovs s := by
-  rcases h with h | ⟨c, hc, hs, hl⟩
-  · exact dispatch_correct selfOk k ovs s h hz
-  · exact single_call_matching selfOk k ovs c hc s hs hl
-
-/-- the full statement is false for single-call names: `void f(int)` called with a string calls
-    `f` with that string (C: `lua_tointeger` answers 0); called with nothing it reads above the top -/
-theorem single_call_full_statement_false :
+/-- (historical) the statement was false for single-call names: `void f(int)` called with a string
+    called `f` with that string (C: `lua_tointeger` answers 0); the body written now is correct -/
+theorem single_call_statement_false_before_fix :
     ∃ (k : Kind) (ovs : List Overload) (s : Stack),
       (byCount (luaCalls k ovs) 0).length ≤ 1 ∧
-      run (fun _ => true) (gen k ovs) s ≠ expected (fun _ => true) k ovs s :=
-  ⟨.free, [⟨[⟨.number, false⟩], false⟩], [⟨.string, 0, 5⟩], by decide, by decide⟩
+      run (fun _ => true) (genSingleCase k ovs) s ≠ expected (fun _ => true) k ovs s ∧
+      run (fun _ => true) (gen k ovs) s = expected (fun _ => true) k ovs s :=
+  ⟨.free, [⟨[⟨.number, false⟩], false⟩], [⟨.string, 0, 5⟩], by decide, by decide, by decide⟩
 
-theorem single_call_reads_above_top :
-    run (fun _ => true) (gen .free [⟨[⟨.number, false⟩], false⟩]) []
-      = .ret [⟨0, 0, none, [Val.absent]⟩] 0 := by decide
+/-- a name with one signature now raises on every other stack -/
+theorem single_call_checked (selfOk : Val → Bool) (k : Kind) (hk : k.selfOffset = 0) (ovs : List Overload)
+    (c : Call) (h : luaCalls k ovs = [c]) (s : Stack) (hs : s.map (·.ty) ≠ c.types) :
+    run selfOk (gen k ovs) s = .error [] := by
+  have hz : (byCount (luaCalls k ovs) 0).length ≤ 1 := by
+    rw [h]; simp only [byCount, List.filter_cons, List.filter_nil]; split <;> simp
+  rw [dispatch_correct selfOk k ovs s hz]
+  simp only [expected, hk, if_true, expectedArgs, h, firstMatch]
+  have : ¬ c.types = s.map (·.ty) := fun e => hs e.symm
+  simp [this]
+
+example : run (fun _ => true) (gen .free [⟨[⟨.number, false⟩], false⟩]) [] = .error [] := by decide
 
 /-! ### consequences, in the words of the property -/
 
@@ -200,14 +173,14 @@ theorem single_call_reads_above_top :
     the arguments exactly; its arguments are the stack values in order; the count returned is
     the result count of that overload -/
 theorem never_a_wrong_call (selfOk : Val → Bool) (k : Kind) (ovs : List Overload) (s : Stack)
-    (hm : (luaCalls k ovs).length ≠ 1) (hz : (byCount (luaCalls k ovs) 0).length ≤ 1)
+    (hz : (byCount (luaCalls k ovs) 0).length ≤ 1)
     (evs : List CallEv) (n : Nat) (h : run selfOk (gen k ovs) s = .ret evs n) :
     ∃ ci c o, evs = [⟨ci, c.ov, if k.selfOffset = 0 then none else s.head?, s.drop k.selfOffset⟩] ∧
       (luaCalls k ovs)[ci]? = some c ∧
       c.types = (s.drop k.selfOffset).map (·.ty) ∧
       (∀ j c', j < ci → (luaCalls k ovs)[j]? = some c' → c'.types ≠ (s.drop k.selfOffset).map (·.ty)) ∧
       ovs[c.ov]? = some o ∧ n = nresultsOf k o := by
-  rw [dispatch_correct selfOk k ovs s hm hz] at h
+  rw [dispatch_correct selfOk k ovs s hz] at h
   have key : ∀ (self : Option Val) (args : List Val),
       expectedArgs (luaCalls k ovs) self args = .ret evs n →
       ∃ ci c o, evs = [⟨ci, c.ov, self, args⟩] ∧ (luaCalls k ovs)[ci]? = some c ∧
@@ -242,10 +215,10 @@ theorem never_a_wrong_call (selfOk : Val → Bool) (k : Kind) (ovs : List Overlo
 
 /-- no signature matches the arguments: `luaL_error`, and the library is not called -/
 theorem no_match_is_an_error (selfOk : Val → Bool) (k : Kind) (ovs : List Overload) (s : Stack)
-    (hm : (luaCalls k ovs).length ≠ 1) (hz : (byCount (luaCalls k ovs) 0).length ≤ 1)
+    (hz : (byCount (luaCalls k ovs) 0).length ≤ 1)
     (hno : ∀ c ∈ luaCalls k ovs, c.types ≠ (s.drop k.selfOffset).map (·.ty)) :
     run selfOk (gen k ovs) s = .error [] := by
-  rw [dispatch_correct selfOk k ovs s hm hz]
+  rw [dispatch_correct selfOk k ovs s hz]
   unfold expected
   by_cases hk : k.selfOffset = 0
   · simp only [hk, if_true, expectedArgs]
@@ -267,13 +240,13 @@ example : ∀ c ∈ luaCalls .free [⟨[⟨.number, false⟩], false⟩, ⟨[⟨
 /-- overloads the Lua tags cannot tell apart (`f(int)` / `f(double)`): the earlier one wins,
     the later call is unreachable for every stack -/
 theorem indistinguishable_earlier_wins (selfOk : Val → Bool) (k : Kind) (ovs : List Overload) (s : Stack)
-    (hm : (luaCalls k ovs).length ≠ 1) (hz : (byCount (luaCalls k ovs) 0).length ≤ 1)
+    (hz : (byCount (luaCalls k ovs) 0).length ≤ 1)
     (i j : Nat) (ci cj : Call) (hij : i < j)
     (hi : (luaCalls k ovs)[i]? = some ci) (hj : (luaCalls k ovs)[j]? = some cj)
     (hsame : ci.types = cj.types)
     (evs : List CallEv) (n : Nat) (h : run selfOk (gen k ovs) s = .ret evs n) :
     ∀ ev ∈ evs, ev.ci ≠ j := by
-  obtain ⟨c, cc, o, hev, hget, hty, hmin, _⟩ := never_a_wrong_call selfOk k ovs s hm hz evs n h
+  obtain ⟨c, cc, o, hev, hget, hty, hmin, _⟩ := never_a_wrong_call selfOk k ovs s hz evs n h
   intro ev hmem
   rw [hev] at hmem
   simp at hmem
@@ -296,12 +269,12 @@ example :
     carrying exactly its tags (free functions and constructors) -/
 theorem distinguishable_is_reached (selfOk : Val → Bool) (k : Kind) (hk : k.selfOffset = 0)
     (ovs : List Overload) (s : Stack)
-    (hm : (luaCalls k ovs).length ≠ 1) (hz : (byCount (luaCalls k ovs) 0).length ≤ 1)
+    (hz : (byCount (luaCalls k ovs) 0).length ≤ 1)
     (j : Nat) (cj : Call) (hj : (luaCalls k ovs)[j]? = some cj)
     (hfirst : ∀ i c, i < j → (luaCalls k ovs)[i]? = some c → c.types ≠ cj.types)
     (hs : s.map (·.ty) = cj.types) :
     run selfOk (gen k ovs) s = .ret [⟨j, cj.ov, none, s⟩] cj.nresults := by
-  rw [dispatch_correct selfOk k ovs s hm hz]
+  rw [dispatch_correct selfOk k ovs s hz]
   simp only [expected, hk, if_true, expectedArgs]
   have : firstMatch (s.map (·.ty)) 0 (luaCalls k ovs) = some (j, cj) := by
     rw [firstMatch_spec]
@@ -311,12 +284,12 @@ theorem distinguishable_is_reached (selfOk : Val → Bool) (k : Kind) (hk : k.se
 /-- the same for methods: object at index 1, arguments above it -/
 theorem distinguishable_is_reached_method (selfOk : Val → Bool) (k : Kind) (hk : k.selfOffset = 1)
     (ovs : List Overload) (self : Val) (args : List Val) (hself : selfOk self = true)
-    (hm : (luaCalls k ovs).length ≠ 1) (hz : (byCount (luaCalls k ovs) 0).length ≤ 1)
+    (hz : (byCount (luaCalls k ovs) 0).length ≤ 1)
     (j : Nat) (cj : Call) (hj : (luaCalls k ovs)[j]? = some cj)
     (hfirst : ∀ i c, i < j → (luaCalls k ovs)[i]? = some c → c.types ≠ cj.types)
     (hs : args.map (·.ty) = cj.types) :
     run selfOk (gen k ovs) (self :: args) = .ret [⟨j, cj.ov, some self, args⟩] cj.nresults := by
-  rw [dispatch_correct selfOk k ovs _ hm hz]
+  rw [dispatch_correct selfOk k ovs _ hz]
   simp only [expected, hk, expectedArgs, hself]
   have : firstMatch (args.map (·.ty)) 0 (luaCalls k ovs) = some (j, cj) := by
     rw [firstMatch_spec]
@@ -376,5 +349,188 @@ theorem old_method_dispatch_wrong :
 theorem old_method_single_reads_object :
     run (fun v => v.cls == 4) (genOld .method [⟨[⟨.number, false⟩], true⟩]) [⟨.userdata, 4, 0⟩, ⟨.number, 0, 5⟩]
       = .ret [⟨0, 0, some ⟨.userdata, 4, 0⟩, [⟨.userdata, 4, 0⟩]⟩] 1 := by decide
+
+/-! ### registration tables -/
+
+theorem mem_groups_mem (fns : List WFn) : ∀ g ∈ groups fns, g ∈ fns := by
+  induction fns with
+  | nil => intro g h; simp [groups] at h
+  | cons f fs ih =>
+    intro g h
+    simp only [groups, List.mem_cons, List.mem_filter] at h
+    rcases h with h | ⟨h, _⟩
+    · simp [h]
+    · simp [ih g h]
+
+/-- every wrapped declaration belongs to a gathered group (the group of its `ast.name`) -/
+theorem groups_cover (fns : List WFn) : ∀ f ∈ fns, ∃ g ∈ groups fns, g.name = f.name := by
+  induction fns with
+  | nil => intro f h; simp at h
+  | cons f0 fs ih =>
+    intro f h
+    simp only [List.mem_cons] at h
+    rcases h with h | h
+    · exact ⟨f0, by simp [groups], by rw [h]⟩
+    · obtain ⟨g, hg, hn⟩ := ih f h
+      by_cases e : g.name = f0.name
+      · exact ⟨f0, by simp [groups], by rw [← hn, e]⟩
+      · exact ⟨g, by simp [groups, hg, e], hn⟩
+
+/-- every `ast.name` is gathered into exactly one group: one C function, one table entry -/
+theorem groups_names_nodup (fns : List WFn) : ((groups fns).map (·.name)).Nodup := by
+  induction fns with
+  | nil => simp [groups]
+  | cons f fs ih =>
+    simp only [groups, List.map_cons, List.nodup_cons]
+    constructor
+    · intro h
+      simp only [List.mem_map, List.mem_filter] at h
+      obtain ⟨g, ⟨_, hne⟩, he⟩ := h
+      simp at hne
+      exact hne he
+    · exact (List.Nodup.sublist ((List.filter_sublist).map _) ih)
+
+/-- the group that stands for a name is its first declaration (`overloads[0]`: its `LUA_name`,
+    `LUA_name_impl` and options are used) -/
+theorem groups_head (f : WFn) (fs : List WFn) : (groups (f :: fs)).head? = some f := by
+  simp [groups]
+
+theorem lookupReg_none (regs : List (Nat × Nat)) (x : Nat) :
+    lookupReg regs x = none ↔ ∀ p ∈ regs, p.1 ≠ x := by
+  induction regs with
+  | nil => simp [lookupReg]
+  | cons p rest ih =>
+    obtain ⟨n, f⟩ := p
+    simp only [lookupReg]
+    cases h : lookupReg rest x with
+    | some g =>
+      simp only [reduceCtorEq, false_iff]
+      intro hall
+      have := (ih.mpr (fun q hq => hall q (by simp [hq])))
+      rw [h] at this
+      simp at this
+    | none =>
+      have hr := ih.mp h
+      by_cases e : n = x
+      · simp [e]
+      · simp only [e, if_false, true_iff]
+        intro q hq
+        simp only [List.mem_cons] at hq
+        rcases hq with hq | hq
+        · rw [hq]; exact e
+        · exact hr q hq
+
+/-- with distinct names in a table, a name reaches exactly the C function entered under it -/
+theorem lookupReg_of_nodup (regs : List (Nat × Nat)) (h : (regs.map (·.1)).Nodup) (x f : Nat) :
+    lookupReg regs x = some f ↔ (x, f) ∈ regs := by
+  induction regs generalizing f with
+  | nil => simp [lookupReg]
+  | cons p rest ih =>
+    obtain ⟨n, g⟩ := p
+    simp only [List.map_cons, List.nodup_cons] at h
+    obtain ⟨hn, hrest⟩ := h
+    simp only [lookupReg]
+    cases hl : lookupReg rest x with
+    | some g' =>
+      have hmem := (ih hrest g').mp hl
+      have hx : n ≠ x := by
+        intro e; subst e
+        exact hn (List.mem_map.mpr ⟨(n, g'), hmem, rfl⟩)
+      simp only [Option.some.injEq, List.mem_cons, Prod.mk.injEq]
+      constructor
+      · rintro rfl; exact Or.inr hmem
+      · rintro (⟨e, _⟩ | h2)
+        · exact absurd e.symm hx
+        · have := (ih hrest f).mpr h2
+          rw [hl] at this
+          simpa using this
+    | none =>
+      have hno := (lookupReg_none rest x).mp hl
+      by_cases e : n = x
+      · subst e
+        simp only [if_true, Option.some.injEq, List.mem_cons, Prod.mk.injEq, true_and]
+        constructor
+        · rintro rfl; exact Or.inl rfl
+        · rintro (h2 | h2)
+          · exact h2.symm
+          · exact absurd rfl (hno _ h2)
+      · simp only [e, if_false, reduceCtorEq, List.mem_cons, Prod.mk.injEq, false_iff]
+        rintro (⟨e2, _⟩ | h2)
+        · exact e e2.symm
+        · exact hno _ h2 rfl
+
+/-- the same Lua name entered twice (a global `inner` and `ns::inner`; `LUA_name` defaults to the
+    bare function name): the later entry wins, the earlier C function is unreachable -/
+theorem lookupReg_later_wins (pre post : List (Nat × Nat)) (n f : Nat) (h : ∀ p ∈ post, p.1 ≠ n) :
+    lookupReg (pre ++ (n, f) :: post) n = some f := by
+  induction pre with
+  | nil => simp [lookupReg, (lookupReg_none post n).mpr h]
+  | cons p pre ih => obtain ⟨a, b⟩ := p; simp [lookupReg, ih]
+
+example : lookupReg (moduleRegs [⟨[], [⟨1, 1, 10, .free⟩]⟩, ⟨[], [⟨1, 1, 20, .free⟩]⟩]) 1 = some 20 := by decide
+
+theorem mem_classRegs (c : ClassD) (n f : Nat) :
+    (n, f) ∈ classRegs c ↔
+      ∃ g ∈ groups c.fns, g.kind ≠ .ctor ∧ n = (if g.kind = .dtor then gcName else g.lua) ∧ f = g.impl := by
+  simp only [classRegs, List.mem_filterMap]
+  constructor
+  · rintro ⟨g, hg, h⟩
+    refine ⟨g, hg, ?_⟩
+    cases hk : g.kind <;> simp [hk] at h ⊢ <;> simp [h]
+  · rintro ⟨g, hg, hk, hn, hf⟩
+    refine ⟨g, hg, ?_⟩
+    cases hk' : g.kind <;> simp [hk'] at hk hn ⊢ <;> simp [hn, hf]
+
+/-- `obj:name(...)`: with distinct names in the class table every gathered method (and `__gc`)
+    reaches the C function of its own group -/
+theorem classRegs_reaches (c : ClassD) (h : ((classRegs c).map (·.1)).Nodup) (g : WFn)
+    (hg : g ∈ groups c.fns) (hk : g.kind ≠ .ctor) :
+    lookupReg (classRegs c) (if g.kind = .dtor then gcName else g.lua) = some g.impl :=
+  (lookupReg_of_nodup _ h _ _).mpr ((mem_classRegs c _ _).mpr ⟨g, hg, hk, rfl, rfl⟩)
+
+example :
+    let c : ClassD := ⟨5, [⟨1, 1, 10, .ctor⟩, ⟨1, 1, 11, .ctor⟩, ⟨2, 2, 12, .dtor⟩, ⟨3, 3, 13, .method⟩,
+      ⟨4, 4, 14, .method⟩, ⟨3, 3, 15, .method⟩]⟩
+    classRegs c = [(gcName, 12), (3, 13), (4, 14)] ∧ ctorRegs c = [(5, 10)] ∧
+      ((classRegs c).map (·.1)).Nodup := by decide
+
+/-! ### objects -/
+
+/-- the value a constructor of class `c` returns passes the object test of `c`'s methods ... -/
+theorem ctor_value_accepted (c d : Nat) : selfOkOf c (ctorValue c d) = true := by
+  simp [selfOkOf, ctorValue]
+
+/-- ... and of no other class (metatables are per class) -/
+theorem ctor_value_rejected (c c' d : Nat) (h : c ≠ c') : selfOkOf c' (ctorValue c d) = false := by
+  simp [selfOkOf, ctorValue, h]
+
+/-- a method called on a constructed object of its class dispatches on the arguments above it -/
+theorem method_on_constructed (k : Kind) (hk : k.selfOffset = 1) (ovs : List Overload) (c d : Nat)
+    (args : List Val) (hz : (byCount (luaCalls k ovs) 0).length ≤ 1) :
+    run (selfOkOf c) (gen k ovs) (ctorValue c d :: args)
+      = expectedArgs (luaCalls k ovs) (some (ctorValue c d)) args := by
+  rw [dispatch_correct (selfOkOf c) k ovs _ hz]
+  simp [expected, hk, ctor_value_accepted]
+
+/-- and on an object of another class raises before the library is called -/
+theorem method_on_foreign_object (k : Kind) (hk : k.selfOffset = 1) (ovs : List Overload) (c c' d : Nat)
+    (h : c ≠ c') (args : List Val) (hz : (byCount (luaCalls k ovs) 0).length ≤ 1) :
+    run (selfOkOf c') (gen k ovs) (ctorValue c d :: args) = .error [] := by
+  rw [dispatch_correct (selfOkOf c') k ovs _ hz]
+  simp [expected, hk, ctor_value_rejected c c' d h]
+
+theorem gcRuns_null (n c : Nat) : gcRuns n ⟨c, none⟩ = 0 := by
+  induction n with
+  | zero => rfl
+  | succ n ih => simp [gcRuns, gcStep, ih]
+
+/-- however often `__gc` is invoked on a userdata (the collector once; a script may call
+    `obj:__gc()` as well), the C++ destructor runs exactly once -/
+theorem gc_runs_destructor_once (n c p : Nat) : gcRuns (n + 1) ⟨c, some p⟩ = 1 := by
+  simp [gcRuns, gcStep, gcRuns_null]
+
+/-- the destructor body itself dispatches like any method without arguments -/
+example : run (selfOkOf 4) (gen .dtor [⟨[], false⟩]) [ctorValue 4 1] = .ret [⟨0, 0, some (ctorValue 4 1), []⟩] 0 ∧
+    run (selfOkOf 4) (gen .dtor [⟨[], false⟩]) [ctorValue 4 1, ⟨.number, 0, 2⟩] = .error [] := by decide
 
 end Shroud.LuaDispatch
